@@ -179,7 +179,7 @@ func mkShape(shape string) shapeEnv {
 	case "noauth":
 		e.ccfg = kit.BaseConfig(security.SecurityNever, security.SecurityRequired, security.AuthClaimToBe)
 		e.scfg = kit.BaseConfig(security.SecurityOptional, security.SecurityRequired, security.AuthClaimToBe)
-	case "claimtobe", "resumed":
+	case "claimtobe", "resumed", "resumed-noreply":
 		e.ccfg = kit.BaseConfig(security.SecurityRequired, security.SecurityRequired, security.AuthClaimToBe)
 		e.scfg = kit.BaseConfig(security.SecurityRequired, security.SecurityRequired, security.AuthClaimToBe)
 	case "fs":
@@ -197,7 +197,9 @@ func mkShape(shape string) shapeEnv {
 
 func runCase(c Case) outcome {
 	e := mkShape(c.Shape)
-	if c.Shape == "resumed" {
+	var resumeSid string
+	var resumeKey []byte
+	if c.Shape == "resumed" || c.Shape == "resumed-noreply" {
 		// establish the session over an untouched connection first
 		r := kit.Handshake(e.ccfg, e.scfg, 5*time.Second)
 		if r.CErr != nil || r.SErr != nil {
@@ -205,6 +207,10 @@ func runCase(c Case) outcome {
 		}
 		_ = r.CConn.Close()
 		_ = r.SConn.Close()
+		resumeSid = r.SNeg.SessionId
+		if en, ok := security.GetSessionCache().Lookup(resumeSid); ok && en.KeyInfo() != nil {
+			resumeKey = append([]byte(nil), en.KeyInfo().Data...)
+		}
 	}
 	pa, pb := kit.NextPorts()
 	cc, rc := kit.NewBufPipe(pa, pb)     // client <-> relay
@@ -239,7 +245,18 @@ func runCase(c Case) outcome {
 	go func() {
 		defer wg.Done()
 		st := stream.NewStream(cc)
-		_, err := security.NewAuthenticator(e.ccfg, st).ClientHandshake(ctx)
+		var err error
+		if c.Shape == "resumed-noreply" {
+			// the HTCondor-style resumption: the requester asks for no reply, so the only cleartext of this
+			// connection is its own request (one direction), and it starts protecting at once
+			plog, pst := kit.ScriptedClient(cc, kit.PeerOpts{ResumeSid: resumeSid, ResumeKey: resumeKey, ResumeResponse: false, Command: 60011}, 3*time.Second)
+			err, st = plog.Err, pst
+			if err == nil && resumeKey == nil {
+				err = fmt.Errorf("no key for the session to resume")
+			}
+		} else {
+			_, err = security.NewAuthenticator(e.ccfg, st).ClientHandshake(ctx)
+		}
 		o.cErr = err
 		if err != nil {
 			_ = cc.Close()
@@ -313,7 +330,7 @@ func judge(c Case, o outcome) string {
 	return ""
 }
 
-var shapes = []string{"noauth", "claimtobe", "resumed", "fs", "token"}
+var shapes = []string{"noauth", "claimtobe", "resumed", "resumed-noreply", "fs", "token"}
 
 func TestC04Tamper(t *testing.T) {
 	var cases []Case
@@ -337,7 +354,7 @@ func TestC04Tamper(t *testing.T) {
 		lens := o.lens
 		nc := len(lens[0]) - 3 // minus the client's three application messages
 		ns := len(lens[1]) - 4 // minus post-auth ad and the server's three application messages
-		if sh == "resumed" {
+		if sh == "resumed" || sh == "resumed-noreply" {
 			ns = len(lens[1]) - 3
 		}
 		baseLens[sh] = [2][]int{lens[0][:nc], lens[1][:ns]}
@@ -424,7 +441,7 @@ func TestC04Tamper(t *testing.T) {
 	}
 	wg.Wait()
 	if kit.Thorough() {
-		ev.Exhaustive("every byte offset of every cleartext handshake frame x 4 substitutes + 4 structural edits per frame, for 5 handshake shapes")
+		ev.Exhaustive("every byte offset of every cleartext handshake frame x 4 substitutes + 4 structural edits per frame, for 6 handshake shapes (incl. a resumption that asks for no reply: cleartext in one direction only)")
 	} else {
 		ev.Exhaustive("every byte offset (one substitute) of the no-authentication and resumed shapes and every header byte of all shapes; every third payload offset (two substitutes) of CLAIMTOBE, FS, TOKEN; 4 structural edits per frame")
 	}
